@@ -1,0 +1,50 @@
+//go:build verif
+
+// Contracts for the deductive checks in /verif (comment-only). Syntax: /tmp/cw/GUIDE.md.
+// Lines starting with "//@?" are INACTIVE clauses (demanded by the property, not dischargeable with the present
+// engine; the reason is given on the line). They are placed directly after `nopanic` on purpose: an engine that
+// does not know "//@?" then reports them as "unrecognised contract line" instead of gluing them to a clause.
+
+package interpolation
+
+// scalar(x): x is neither a string nor a container (bool, int, float, nil, ...): interpolation must return it unchanged.
+//@ spec scalar(x any) bool = !isStr(x) && !isMap(x) && !isList(x)
+// shape1(a, b): b has the shape of a, one level deep: containers stay containers of the same kind, lists keep
+// their length, non-string scalars are identical. (A string may change type through a caster.)
+//@ spec shape1(a any, b any) bool = (isMap(a) ==> isMap(b)) && (isList(a) ==> isList(b) && len(asList(b)) == len(asList(a))) && (scalar(a) ==> b == a)
+
+//@ func (Options).getCasterForPath
+//@   nopanic[C01,C08]
+//@   pure
+//@   ensures[C08] result.1 ==> exists k string :: has(o.TypeCastMapping, k) && pathmatch(path, k) && result.0 == o.TypeCastMapping[k]
+//@   ensures[C08] !result.1 ==> result.0 == nil && (forall k string :: has(o.TypeCastMapping, k) ==> !pathmatch(path, k))
+//@   loop 1
+//@     invariant[C08] forall k string :: seen(k) ==> !pathmatch(path, k)
+
+//@ func newPathError
+//@   nopanic[C01,C08]
+//@   pure
+//@   ensures[C01,C08] result == nil <==> err == nil
+
+//@ func recursiveInterpolate
+//@   nopanic[C01,C08]
+//@?  ensures[C08] err == nil && isMap(value) ==> forall k string :: has(asMap(result.0), k) <==> has(asMap(value), k)     // engine: the recursive call (callbacks opts.Substitute / caster) havocs every heap, including the fresh `out`; with `pure` on this function the per-heap loop havoc makes ~40 frame obligations time out instead
+//@?  ensures[C08] err == nil && isMap(value) ==> forall k string :: has(asMap(value), k) ==> shape1(asMap(value)[k], asMap(result.0)[k])     // same
+//@?  ensures[C08] err == nil && isList(value) ==> forall j int :: 0 <= j && j < len(asList(value)) ==> shape1(asList(value)[j], asList(result.0)[j])     // same
+//@?  ensures[C01,C08] err == nil ==> wf(result)     // not true for an arbitrary caster (it may return a boxed nil map); no way to state a contract for the results of a function-typed table entry
+//@?  ensures[C08] isStr(value) && err != nil ==> result.0 == value     // holds only for the Substitute-error return; on a caster error the code returns the caster's value (see report)
+//@   requires opts.LookupValue != nil
+//@   requires opts.Substitute != nil
+//@   requires forall k string :: has(opts.TypeCastMapping, k) ==> opts.TypeCastMapping[k] != nil
+//@   ensures[C01,C08] err == nil && !isStr(value) ==> wf(result)
+//@   ensures[C08] err == nil ==> shape1(value, result.0)
+//@   ensures[C08] err == nil && isMap(value) ==> fresh(asMap(result.0))
+//@   ensures[C08] scalar(value) ==> err == nil
+//@   ensures[C01] err != nil && !isStr(value) ==> result.0 == nil
+
+//@ func Interpolate
+//@   nopanic[C01,C08]
+//@?  ensures[C08] err == nil ==> forall k string :: has(result.0, k) <==> has(config, k)     // engine: as for recursiveInterpolate (call havocs `out`)
+//@?  ensures[C08] err == nil ==> forall k string :: has(config, k) ==> shape1(config[k], result.0[k])     // same
+//@   requires forall k string :: has(opts.TypeCastMapping, k) ==> opts.TypeCastMapping[k] != nil
+//@   ensures[C01] result.0 != nil && fresh(result.0)
